@@ -69,17 +69,28 @@ func (j *JApi) ToJsonIndent() ([]byte, error) {
 }
 
 func (j *JApi) ToOpenAPIJson() ([]byte, error) {
-	o, err := openapi.NewOpenAPI(j.Catalog())
-	if err != nil {
-		return nil, err
-	}
-	return json.Marshal(o)
+	return j.toOpenAPI(json.Marshal)
 }
 
 func (j *JApi) ToOpenAPIJsonIndent() ([]byte, error) {
-	o, err := openapi.NewOpenAPI(j.Catalog())
-	if err != nil {
-		return nil, err
+	return j.toOpenAPI(func(v any) ([]byte, error) {
+		return json.MarshalIndent(v, "", "  ")
+	})
+}
+
+// toOpenAPI converts the catalog to OpenAPI. The converter (and the schema
+// library behind it) panics on the schemas it cannot represent; such a panic is
+// returned as an error.
+func (j *JApi) toOpenAPI(marshal func(any) ([]byte, error)) (b []byte, err error) {
+	defer func() {
+		if r := recover(); r != nil {
+			b, err = nil, fmt.Errorf("%v", r)
+		}
+	}()
+
+	o, e := openapi.NewOpenAPI(j.Catalog())
+	if e != nil {
+		return nil, e
 	}
-	return json.MarshalIndent(o, "", "  ")
+	return marshal(o)
 }
